@@ -581,3 +581,49 @@ func c12R36(ic *IC, r *Report) {
 	r.Check(found != "", "R12.36", "cfg/case:returnStmt/forwarded-values-checked-one-by-one", ic.pos(cc.Pos()), "each result of a forwarded call is compared with the result type at its position ("+found+")",
 		"the returnStmt case of cfg compares only its operands with the result types: for `return g()` with g returning several values the second and later values are never checked, so func f() (int, int) { return g() } with g() (int, string) is accepted and fails at run time in reflect.Set (compiled Go: cannot use g() (value of type string) as int value in return statement)")
 }
+
+func init() {
+	ruleText["R12.38"] = "the operands of & are the addressable ones: in typecheck.addressExpr the case of index expressions accepts the element of an array or slice (isArray) and of the array a pointer points to, and does not accept the element of a map - no condition of that case that ends in 'found' calls isMap; an index expression on a map is answered with an error"
+}
+
+// c12R38: D145. p := &m["a"] was accepted (a pointer to a copy); &pa[1] for pa *[2]int was rejected.
+func c12R38(ic *IC, r *Report) {
+	info := ic.Info
+	ae := ic.fn(r, "typecheck.addressExpr")
+	if ae == nil {
+		return
+	}
+	var cc *ast.CaseClause
+	ast.Inspect(ae.Decl.Body, func(q ast.Node) bool {
+		c, ok := q.(*ast.CaseClause)
+		if !ok {
+			return true
+		}
+		for _, e := range c.List {
+			if id := identOf(e); id != nil && id.Name == "indexExpr" {
+				cc = c
+			}
+		}
+		return true
+	})
+	if cc == nil {
+		r.Errorf("R12.38: the indexExpr case of typecheck.addressExpr was not found")
+		return
+	}
+	accepts, rejects := "", false
+	ast.Inspect(cc, func(q ast.Node) bool {
+		ifs, ok := q.(*ast.IfStmt)
+		if !ok || len(callsIn(info, ifs.Cond, true, "interp.isMap")) == 0 {
+			return true
+		}
+		// what does the branch do: report an error, or go on as found
+		if len(callsIn(info, ifs.Body, true, "interp.node.cfgErrorf")) > 0 {
+			rejects = true
+			return true
+		}
+		accepts = ic.pos(ifs.Pos())
+		return true
+	})
+	r.Check(accepts == "" && rejects, "R12.38", "typecheck.addressExpr/case:indexExpr/map-element-not-addressable", ic.pos(cc.Pos()), "an index expression on a map is answered with an error",
+		"typecheck.addressExpr accepts the address of an index expression whose operand is a map ("+accepts+"): p := &m[\"a\"] is accepted and p points to a copy of the element - writes through it are lost, and the program is not valid Go (cannot take address of m[\"a\"])")
+}
